@@ -8,6 +8,7 @@
 import OidcModel.Spec.C15
 import OidcModel.Generated.TokenExchangeTE
 import OidcModel.Proofs.C05
+import OidcModel.Proofs.C15Parse
 import OidcModel.GoTac
 namespace C15
 open Go Gen Hand
@@ -48,8 +49,10 @@ def ownResolution (p : TEProvider) (tok typ : String) : Option (String × String
   if typ = Const.AccessTokenType then
     match p.Crypto.Decrypt tok with
     | .ok plain =>
-      if Go.len (TE.split plain ":") != 2 then none
-      else some (Go.index (TE.split plain ":") 0, Go.index (TE.split plain ":") 1, [])
+      -- the payload IS `id:subject` with a colon in neither part (`TE.parsePair_some_iff`, Proofs/C15Parse.lean) - or the token is refused
+      match TE.parsePair plain with
+      | some (i, s) => some (i, s, [])
+      | none => none
     | .error _ =>
       match p.AccessTokenVerifier.verify tok with
       | .ok c => some (c.JWTID, c.Subject, if c.set then c.Claims else [])
@@ -79,14 +82,48 @@ def resolve (p : TEProvider) (tok typ : String) (isActor : Bool) : String × Str
       | .error _ => ("", "", [], false)
     else ("", "", [], false)
 
+/-- hand-readable specification of `getTokenIDAndClaims`: an opaque token (the provider's `Decrypt` succeeds) is `id:subject` with a colon
+    in neither part or it is refused - NO fall-back to the JWT verifier and no other reading of the payload; anything else is a JWT
+    access token the provider's verifier accepts -/
+def ownAccess (p : TEProvider) (tok : String) : String × String × TEATClaims × Bool :=
+  match p.Crypto.Decrypt tok with
+  | .ok plain =>
+    match TE.parsePair plain with
+    | some (i, s) => (i, s, {}, true)
+    | none => ("", "", {}, false)
+  | .error _ =>
+    match p.AccessTokenVerifier.verify tok with
+    | .ok c => (c.JWTID, c.Subject, c, true)
+    | .error _ => ("", "", {}, false)
+
+theorem pair_cases (L : List String) : (∃ a b, L = [a, b]) ∨ (L.length ≠ 2 ∧ ∀ a b, L ≠ [a, b]) := by
+  match L with
+  | [a, b] => exact .inl ⟨a, b, rfl⟩
+  | [] => exact .inr ⟨by simp, by simp⟩
+  | [_] => exact .inr ⟨by simp, by simp⟩
+  | _ :: _ :: _ :: _ => exact .inr ⟨by simp, by simp⟩
+
+/-- CHARACTERISATION of the regenerated `getTokenIDAndClaims` (deep4): the only place where the way the payload is cut matters. A parser
+    that cuts at the last (or the first) colon, or that accepts more than two pieces, leaves an unprovable goal here. -/
+theorem getTokenIDAndClaims_eq (now : Int) (p : TEProvider) (tok : String) :
+    GenTE.getTokenIDAndClaims now p tok = ownAccess p tok := by
+  unfold GenTE.getTokenIDAndClaims ownAccess Hand.teVerifyAccessToken TE.parsePair
+  cases hd : p.Crypto.Decrypt tok with
+  | error e => simp only [Go.nil, HasNil.nilv]; go_leaf
+  | ok plain =>
+    simp only [Go.nil, HasNil.nilv]
+    rcases pair_cases (TE.split plain ":") with ⟨a, b, h⟩ | ⟨h1, h2⟩
+    · go_leaf [h, Go.len, HasLen.len, Go.index, TE.count]
+    · go_leaf [Go.len, HasLen.len, Go.index, TE.count]
+
 /-- CHARACTERISATION of the regenerated `GetTokenIDAndSubjectFromToken` (with `getTokenIDAndClaims`): it IS that specification, for
     all providers, storages, tokens, declared types and roles. The script does not depend on the shape of the Go text (order of the
     switch cases, early returns, …): it splits whatever `if` / `match` structure was regenerated and closes every branch. -/
 theorem c15_resolution_spec (now : Int) (p : TEProvider) (tok typ : String) (isActor : Bool) :
     GenTE.GetTokenIDAndSubjectFromToken now p tok typ isActor = resolve p tok typ isActor := by
-  unfold GenTE.GetTokenIDAndSubjectFromToken resolve ownResolution rolePolicy GenTE.getTokenIDAndClaims
-    Hand.teVerifyAccessToken Hand.teVerifyIDTokenHint TEHint.strict
-  simp only [Go.nil, HasNil.nilv, Go.notNil, Nilable.isNil, TERefreshReq.GetSubject, beq_iff_eq]
+  unfold GenTE.GetTokenIDAndSubjectFromToken resolve ownResolution rolePolicy
+    Hand.teVerifyIDTokenHint TEHint.strict
+  simp only [getTokenIDAndClaims_eq, ownAccess, Go.nil, HasNil.nilv, Go.notNil, Nilable.isNil, TERefreshReq.GetSubject, beq_iff_eq]
   -- the three type constants are pairwise different (needed when the cases of the switch come in another order than in `resolve`)
   have d1 : Const.AccessTokenType ≠ Const.RefreshTokenType := by decide
   have d2 : Const.AccessTokenType ≠ Const.IDTokenType := by decide
@@ -839,5 +876,210 @@ example : MintContract { exProvider with Storage := exStoreBoth } := by
     subst hk
     simp at h
     intro he; rw [he] at h; have := congrArg String.length h; simp at this
+
+
+/-! ## deep4: the identity handed to the storage policy is the one the presented opaque token was ISSUED for
+
+  `CreateBearerToken` (regenerated) seals `id ++ ":" ++ subject`; `getTokenIDAndClaims` (regenerated) opens and cuts it. Composed, for
+  EVERY token id and subject string: parse (mint id sub) = (id, sub) or a refusal - never another pair. A subject (or id) containing
+  a colon is exactly where the unchanged code refuses (finding F-C15d: such a token is unusable at the provider). -/
+
+/-- what AES sealing is assumed to do: what `Encrypt` produced, `Decrypt` opens to the same plain text -/
+def SealContract (c : TECrypto) : Prop := ∀ x t, c.Encrypt x = .ok t → c.Decrypt t = .ok x
+
+/-- CHARACTERISATION of the regenerated `CreateBearerToken` -/
+theorem createBearerToken_eq (now : Int) (id sub : String) (c : TECrypto) :
+    GenTE.CreateBearerToken now id sub c = c.Encrypt (id ++ ":" ++ sub) := by
+  unfold GenTE.CreateBearerToken
+  simp only [te_hadd]
+
+/-- ROUND TRIP parse ∘ mint over the two regenerated functions, for every token id and subject: the minted token is read back as the
+    very pair that was sealed when neither part contains a colon, and is REFUSED otherwise -/
+theorem c15_opaque_roundtrip {now : Int} {p : TEProvider} (hs : SealContract p.Crypto) {id sub t : String}
+    (hm : GenTE.CreateBearerToken now id sub p.Crypto = .ok t) :
+    GenTE.getTokenIDAndClaims now p t =
+      if ':' ∈ id.toList ∨ ':' ∈ sub.toList then ("", "", {}, false) else (id, sub, {}, true) := by
+  rw [createBearerToken_eq] at hm
+  rw [getTokenIDAndClaims_eq]
+  unfold ownAccess
+  rw [hs _ _ hm]
+  simp only [TE.parsePair_mint]
+  by_cases hc : ':' ∈ id.toList ∨ ':' ∈ sub.toList <;> simp [hc]
+
+/-- NEVER ANOTHER PAIR: if the provider's own parser accepts a token it minted, then with the id and the subject it minted it for -/
+theorem c15_opaque_never_another_pair {now : Int} {p : TEProvider} (hs : SealContract p.Crypto) {id sub t i s : String} {cl : TEATClaims}
+    (hm : GenTE.CreateBearerToken now id sub p.Crypto = .ok t) (h : GenTE.getTokenIDAndClaims now p t = (i, s, cl, true)) :
+    i = id ∧ s = sub ∧ ':' ∉ id.toList ∧ ':' ∉ sub.toList := by
+  rw [c15_opaque_roundtrip hs hm] at h
+  by_cases hc : ':' ∈ id.toList ∨ ':' ∈ sub.toList
+  · simp [hc] at h
+  · simp only [hc, if_false, Prod.mk.injEq] at h
+    simp only [not_or] at hc
+    exact ⟨h.1.symm, h.2.1.symm, hc.1, hc.2⟩
+
+/-- the resolution of a token the provider minted, presented (in either role) as an access token: its own pair - or, where the
+    provider's own parser refuses (a colon in the id or the subject), whatever the optional verifier storage's policy FOR THAT ROLE says -/
+theorem c15_minted_token_resolution {now : Int} {p : TEProvider} (hs : SealContract p.Crypto) {id sub t : String}
+    (hm : GenTE.CreateBearerToken now id sub p.Crypto = .ok t) (isActor : Bool) :
+    GenTE.GetTokenIDAndSubjectFromToken now p t Const.AccessTokenType isActor =
+      if ':' ∈ id.toList ∨ ':' ∈ sub.toList then
+        (if p.Storage.is_TokenExchangeTokensVerifierStorage then
+          match rolePolicy p.Storage isActor t Const.AccessTokenType with
+          | .ok (i, s, c) => (i, s, c, true)
+          | .error _ => ("", "", [], false)
+         else ("", "", [], false))
+      else (id, sub, [], true) := by
+  rw [createBearerToken_eq] at hm
+  rw [c15_resolution_spec]
+  unfold resolve ownResolution
+  simp only [if_true, hs _ _ hm, TE.parsePair_mint]
+  by_cases hc : ':' ∈ id.toList ∨ ':' ∈ sub.toList <;> simp [hc]
+
+/-- THE SUBJECT PASSED TO THE STORAGE POLICY equals the subject component the provider sealed into the presented token (and the token id
+    the id component): when an exchange request built on a subject token the provider minted for `(id, sub)` goes through, the storage
+    policy was asked about exactly `(id, sub)` - unless the provider's own parser refused the token (a colon in `id` or `sub`) and
+    the optional verifier storage's SUBJECT policy vouched for it under an identity of its own choosing. No third possibility: in
+    particular never the text after the last colon of `sub`. -/
+theorem c15_policy_asked_about_minted_subject {now : Int} {rq : TEIn} {c : OPClient} {p : TEProvider} {r : TEReq} {id sub : String}
+    (hs : SealContract p.Crypto) (hm : GenTE.CreateBearerToken now id sub p.Crypto = .ok rq.SubjectToken)
+    (ht : rq.SubjectTokenType = Const.AccessTokenType) (h : GenTE.CreateTokenExchangeRequest now rq c p = .ok r) :
+    ∃ sid ssub scl aid asub acl r1,
+      p.Storage.ValidateTokenExchangeRequest (builtReq now rq c sid ssub scl aid asub acl) = .ok r1 ∧
+      p.Storage.CreateTokenExchangeRequest r1 = .ok r ∧
+      ((sid = id ∧ ssub = sub ∧ ':' ∉ id.toList ∧ ':' ∉ sub.toList) ∨
+       ((':' ∈ id.toList ∨ ':' ∈ sub.toList) ∧ p.Storage.is_TokenExchangeTokensVerifierStorage = true ∧
+         p.Storage.VerifyExchangeSubjectToken rq.SubjectToken rq.SubjectTokenType = .ok (sid, ssub, scl))) := by
+  obtain ⟨_, sid, ssub, scl, aid, asub, acl, r1, h1, _, h3, h4⟩ := c15_create_request_sound h
+  refine ⟨sid, ssub, scl, aid, asub, acl, r1, h3, h4, ?_⟩
+  rw [← c15_resolution_spec now, ht, c15_minted_token_resolution hs hm false] at h1
+  by_cases hc : ':' ∈ id.toList ∨ ':' ∈ sub.toList
+  · right
+    simp only [hc, if_true] at h1
+    by_cases hv : p.Storage.is_TokenExchangeTokensVerifierStorage = true
+    · simp only [hv, if_true, rolePolicy] at h1
+      refine ⟨hc, hv, ?_⟩
+      rw [ht]
+      cases hp : p.Storage.VerifyExchangeSubjectToken rq.SubjectToken Const.AccessTokenType with
+      | error e => simp [hp] at h1
+      | ok v => obtain ⟨a, b, d⟩ := v; simp [hp] at h1; simp [h1]
+    · simp [hv] at h1
+  · left
+    simp only [hc, if_false, Prod.mk.injEq] at h1
+    simp only [not_or] at hc
+    exact ⟨h1.1.symm, h1.2.1.symm, hc.1, hc.2⟩
+
+/-- the same for the ACTOR role: the actor the storage policy is asked about is the subject the presented actor token was minted for -/
+theorem c15_policy_asked_about_minted_actor {now : Int} {rq : TEIn} {c : OPClient} {p : TEProvider} {r : TEReq} {id sub : String}
+    (hs : SealContract p.Crypto) (hm : GenTE.CreateBearerToken now id sub p.Crypto = .ok rq.ActorToken) (hne : rq.ActorToken ≠ "")
+    (ht : rq.ActorTokenType = Const.AccessTokenType) (h : GenTE.CreateTokenExchangeRequest now rq c p = .ok r) :
+    ∃ sid ssub scl aid asub acl r1,
+      p.Storage.ValidateTokenExchangeRequest (builtReq now rq c sid ssub scl aid asub acl) = .ok r1 ∧
+      p.Storage.CreateTokenExchangeRequest r1 = .ok r ∧
+      ((aid = id ∧ asub = sub ∧ ':' ∉ id.toList ∧ ':' ∉ sub.toList) ∨
+       ((':' ∈ id.toList ∨ ':' ∈ sub.toList) ∧ p.Storage.is_TokenExchangeTokensVerifierStorage = true ∧
+         p.Storage.VerifyExchangeActorToken rq.ActorToken rq.ActorTokenType = .ok (aid, asub, acl))) := by
+  obtain ⟨_, sid, ssub, scl, aid, asub, acl, r1, _, h2, h3, h4⟩ := c15_create_request_sound h
+  refine ⟨sid, ssub, scl, aid, asub, acl, r1, h3, h4, ?_⟩
+  simp only [hne, if_false] at h2
+  rw [← c15_resolution_spec now, ht, c15_minted_token_resolution hs hm true] at h2
+  by_cases hc : ':' ∈ id.toList ∨ ':' ∈ sub.toList
+  · right
+    simp only [hc, if_true] at h2
+    by_cases hv : p.Storage.is_TokenExchangeTokensVerifierStorage = true
+    · simp only [hv, if_true, rolePolicy] at h2
+      refine ⟨hc, hv, ?_⟩
+      rw [ht]
+      cases hp : p.Storage.VerifyExchangeActorToken rq.ActorToken Const.AccessTokenType with
+      | error e => simp [hp] at h2
+      | ok v => obtain ⟨a, b, d⟩ := v; simp [hp] at h2; simp [h2]
+    · simp [hv] at h2
+  · left
+    simp only [hc, if_false, Prod.mk.injEq] at h2
+    simp only [not_or] at hc
+    exact ⟨h2.1.symm, h2.2.1.symm, hc.1, hc.2⟩
+
+/-! ### histories: chains of exchanges (the presented token is what an earlier exchange handed out) -/
+
+/-- a HISTORY of token exchanges at one provider: `Chain now p t sub n` - `t` is an opaque access token the provider handed out for the
+    subject `sub` after `n` exchanges, each of which presented the token the previous one handed out as its subject token -/
+inductive Chain (now : Int) (p : TEProvider) : String → String → Nat → Prop
+  | mint {id sub t : String} : GenTE.CreateBearerToken now id sub p.Crypto = .ok t → Chain now p t sub 0
+  | step {t sub : String} {n : Nat} {rq : TEIn} {c : OPClient} {r : TEReq} {resp : ExchangeResp} :
+      Chain now p t sub n → rq.SubjectToken = t → rq.SubjectTokenType = Const.AccessTokenType →
+      GenTE.CreateTokenExchangeRequest now rq c p = .ok r →
+      p.Storage.ClientAccessTokenType c ≠ TEConst.AccessTokenTypeJWT →
+      (r.requestedTokenType = Const.AccessTokenType ∨ r.requestedTokenType = Const.RefreshTokenType) →
+      GenTE.CreateTokenExchangeResponse now r c p = .ok resp →
+      Chain now p resp.AccessToken r.subject (n + 1)
+
+/-- INVARIANT of every history (by induction over it): each token in the chain is the sealed pair of an id and THE SUBJECT THE STORAGE
+    POLICY DECIDED in the exchange that handed it out (for the first one: the subject it was minted for) -/
+theorem c15_history_token_is_sealed_subject {now : Int} {p : TEProvider} {t sub : String} {n : Nat} (h : Chain now p t sub n) :
+    ∃ id, GenTE.CreateBearerToken now id sub p.Crypto = .ok t := by
+  induction h with
+  | mint hm => exact ⟨_, hm⟩
+  | step _ _ _ hreq hopq hty hresp _ =>
+    have hte := (c15_create_request_sound hreq).1
+    obtain ⟨id, _, _, h2⟩ := c15_issued_access_token_carries_policy_decision hte hty hresp
+    simp only [hopq, if_false] at h2
+    exact ⟨id, by rw [createBearerToken_eq]; exact h2⟩
+
+/-- in EVERY history, however long: the exchange that presents the chain's current token asks the storage policy about the subject the
+    previous exchange's policy decided (the subject the token was issued for) - or the provider's own parser refused the token and
+    the verifier storage's subject policy vouched for it -/
+theorem c15_history_policy_subject {now : Int} {p : TEProvider} {t sub : String} {n : Nat} (hs : SealContract p.Crypto)
+    (hch : Chain now p t sub n) {rq : TEIn} {c : OPClient} {r : TEReq}
+    (htok : rq.SubjectToken = t) (ht : rq.SubjectTokenType = Const.AccessTokenType)
+    (h : GenTE.CreateTokenExchangeRequest now rq c p = .ok r) :
+    ∃ sid ssub scl aid asub acl r1,
+      p.Storage.ValidateTokenExchangeRequest (builtReq now rq c sid ssub scl aid asub acl) = .ok r1 ∧
+      p.Storage.CreateTokenExchangeRequest r1 = .ok r ∧
+      ((ssub = sub ∧ ':' ∉ sub.toList) ∨
+       (p.Storage.is_TokenExchangeTokensVerifierStorage = true ∧
+         p.Storage.VerifyExchangeSubjectToken rq.SubjectToken rq.SubjectTokenType = .ok (sid, ssub, scl))) := by
+  obtain ⟨id, hm⟩ := c15_history_token_is_sealed_subject hch
+  rw [← htok] at hm
+  obtain ⟨sid, ssub, scl, aid, asub, acl, r1, h1, h2, h3⟩ := c15_policy_asked_about_minted_subject hs hm ht h
+  refine ⟨sid, ssub, scl, aid, asub, acl, r1, h1, h2, ?_⟩
+  rcases h3 with ⟨_, hb, _, hd⟩ | ⟨_, hv, hp⟩
+  · exact .inl ⟨hb, hd⟩
+  · exact .inr ⟨hv, hp⟩
+
+/-- a sealing crypto for the examples: `Encrypt s = enc(s)`, `Decrypt` strips it again -/
+def exSeal : TECrypto :=
+  { Encrypt := fun s => .ok ("enc(" ++ s ++ ")"),
+    Decrypt := fun t => if Go.hasPrefix t "enc(" && Go.hasSuffix t ")" then .ok (String.ofList ((t.toList.drop 4).dropLast)) else .error "decrypt" }
+
+-- non-vacuity: a token for `user1` is read back as minted; one for `corp:user2` is refused by the unchanged parser (NOT read as `user2`)
+example : GenTE.getTokenIDAndClaims 0 { exProvider with Crypto := exSeal } "enc(at1:user1)" = ("at1", "user1", {}, true) := by decide
+example : GenTE.getTokenIDAndClaims 0 { exProvider with Crypto := exSeal } "enc(at1:corp:user2)" = ("", "", {}, false) := by decide
+example : (GenTE.CreateBearerToken 0 "at1" "corp:user2" exSeal).toOption = some "enc(at1:corp:user2)" := by decide
+example : (GenTE.CreateTokenExchangeRequest 0 { SubjectToken := "enc(at1:user1)", SubjectTokenType := Const.AccessTokenType }
+    { id := "te-only" } { exProvider with Crypto := exSeal }).toOption.map (·.exchangeSubject) = some "user1" := by decide
+example : (GenTE.CreateTokenExchangeRequest 0 { SubjectToken := "enc(at1:corp:user2)", SubjectTokenType := Const.AccessTokenType }
+    { id := "te-only" } { exProvider with Crypto := exSeal }).toOption.map (·.exchangeSubject) = none := by decide
+
+
+/-- WITNESS for F-C15d, for every provider with a sealing crypto, every token id and every subject that contains a colon: the opaque
+    access token the provider itself mints for that subject (`CreateBearerToken`, used by every grant) is REFUSED by the provider's own
+    parser - the token a successful exchange hands out for such a subject is not usable at the provider -/
+theorem c15_colon_subject_token_refused_witness {now : Int} {p : TEProvider} (hs : SealContract p.Crypto) {id sub t : String}
+    (hc : ':' ∈ sub.toList) (hm : GenTE.CreateBearerToken now id sub p.Crypto = .ok t) :
+    GenTE.getTokenIDAndClaims now p t = ("", "", {}, false) := by
+  rw [c15_opaque_roundtrip hs hm]
+  simp [hc]
+
+example : SealContract exSeal := by
+  intro x t h
+  simp only [exSeal, Except.ok.injEq] at h
+  subst h
+  have h1 : Go.hasPrefix ("enc(" ++ x ++ ")") "enc(" = true := by
+    simp [Go.hasPrefix, String.toList_append]
+  have h2 : Go.hasSuffix ("enc(" ++ x ++ ")") ")" = true := by
+    simp only [Go.hasSuffix, String.toList_append, List.isSuffixOf_iff_suffix]
+    exact ⟨("enc(" ++ x).toList, by simp [String.toList_append]⟩
+  simp only [exSeal, h1, h2, Bool.and_self, if_true, Except.ok.injEq]
+  apply String.toList_inj.1
+  simp [String.toList_append]
 
 end C15
